@@ -96,7 +96,7 @@ class BuildIndex(Harness):
 
     def _expected(self, skel):
         _, rows = layout(skel)
-        names = [r["name"] + (" desc" if skel.get("desc") and i == 0 else "") for i, r in enumerate(rows)]
+        names = [r["name"] for r in rows]      # the name of a record is its header up to the first white space (a description is not part of it)
         return dict(names=names, length=[r["rlen"] for r in rows], start=[r["offset"] for r in rows],
                     lenc=[r["lenc"] for r in rows], lenb=[r["lenb"] for r in rows])
 
@@ -295,3 +295,63 @@ def _genome_sequence_harness():
 
 
 HARNESSES = [BuildIndex(), Fetch(), _genome_sequence_harness()]
+
+
+def prelude(tier):
+    """File-level wiring.  The symbolic harnesses drive create_index / IndexedFasta over an in-memory file and a hand-written index; the step
+    between them -- the index WRITTEN next to a FASTA by the library and read back by Genome.from_file / open_indexed -- needs real files and
+    is exercised here on concrete FASTA files (names with descriptions after a space or a TAB, line widths, CRLF, no final newline): contig
+    lengths, whole contigs and a grid of intervals must equal the file's sequences.  Probing on the real library, not a solver verdict."""
+    import itertools, os, shutil, tempfile, time
+    import bionumpy as bnp
+    from bionumpy.datatypes import Interval
+    t0 = time.time()
+    res = dict(obligations=0, discharged=0, queries=0, inconclusive=[], violations=[], samples=[])
+    seqs = [("a", "ACGTAC"), ("chr2", "GGTTA"), ("zz", "T")]
+    n = 0
+    for desc, width, nl, final in itertools.product(("", " some description", "\tdesc"), (2, 4, 7), ("\n", "\r\n"), (True, False)):
+        text = ""
+        for k, (name, seq) in enumerate(seqs):
+            text += ">" + name + (desc if k == 0 else "") + nl
+            lines = [seq[i:i + width] for i in range(0, len(seq), width)]
+            text += nl.join(lines) + nl
+        if not final:
+            text = text[:-len(nl)]
+        d = tempfile.mkdtemp(prefix="c17_files_")
+        try:
+            for api in ("genome", "open_indexed"):
+                n += 1
+                path = os.path.join(d, api + ".fa")
+                with open(path, "w", newline="") as fh:
+                    fh.write(text)
+                try:
+                    if api == "genome":
+                        g = bnp.Genome.from_file(path)
+                        lengths = dict(g.get_genome_context().chrom_sizes) if hasattr(g, "get_genome_context") else dict(g._genome_context.chrom_sizes)
+                        gs = g.read_sequence()
+                        ivs = [(nm, a, b) for nm, sq in seqs for a in range(len(sq)) for b in range(a + 1, len(sq) + 1)]
+                        got = gs[g.get_intervals(Interval([i[0] for i in ivs], [i[1] for i in ivs], [i[2] for i in ivs]))].tolist()
+                    else:
+                        f = bnp.open_indexed(path)
+                        lengths = dict(f.get_contig_lengths())
+                        ivs = [(nm, a, b) for nm, sq in seqs for a in range(len(sq)) for b in range(a + 1, len(sq) + 1)]
+                        got = f.get_interval_sequences(Interval([i[0] for i in ivs], [i[1] for i in ivs], [i[2] for i in ivs])).tolist()
+                        whole = {nm: f[nm].to_string() for nm, _ in seqs}
+                        if whole != dict(seqs):
+                            raise AssertionError(f"whole contigs {whole}")
+                    exp = [dict(seqs)[nm][a:b] for nm, a, b in ivs]
+                    outcome = None if (lengths == {nm: len(sq) for nm, sq in seqs} and got == exp) else f"lengths {lengths}, first differing interval " + \
+                        str(next(((iv, g_, e_) for iv, g_, e_ in zip(ivs, got, exp) if g_ != e_), None))
+                except Exception as e:
+                    outcome = f"raised {type(e).__name__}: {str(e)[:120]}"
+                if outcome is not None:
+                    res["violations"].append(dict(obligation="fasta-file-probe", inputs=dict(api=api, text=repr(text)), output=outcome,
+                                                  why=f"[real run, concrete FASTA file] {'Genome.from_file(p).read_sequence()' if api == 'genome' else 'open_indexed(p)'} "
+                                                      f"on {text!r} (index built by the library): {outcome}"))
+        finally:
+            shutil.rmtree(d, ignore_errors=True)
+        if len(res["violations"]) >= 5:
+            break
+    res["solver_s"] = time.time() - t0
+    res["summary"] = f"library-built index read back through Genome.from_file and open_indexed on {n} concrete FASTA files: {len(res['violations'])} deviations"
+    return res
